@@ -716,7 +716,7 @@ theorem run_unread {g : Cfg} (ok : UOK g) (hk : g.p.flags.toNat % 2 = 1) {Z : By
       fun hl => ⟨(hl.ts.em.trans hsame.em).trans hS0.2.1, fun s hs => hl.ts.evm s (hsame.mem (hS0.2.2.1 s hs)),
         by have := hl.ts.ans_le; have := hS0.2.2.2; omega, hl.segs.trans hsg'⟩
     rcases hq with ⟨c', hh, hl, hw, hzt, hkp, hpk⟩ | ⟨c', hh, hl, hkp, hfin⟩
-    · have hpoll := hh.poll (F := 100000) hN
+    · have hpoll := hh.pollT hN
       have hw' : c'.env.tr.woken = false := hw.trans hwk
       obtain ⟨k1, k2, k3, k4⟩ := keep hl
       rw [runTask_succ, hpoll]
@@ -728,7 +728,7 @@ theorem run_unread {g : Cfg} (ok : UOK g) (hk : g.p.flags.toNat % 2 = 1) {Z : By
       exact ⟨hkp.same rfl rfl ⟨rfl, rfl, rfl, rfl, rfl, rfl, [], by simp, Quiet.nil⟩, k1, k2, k3, k4,
         Or.inl ⟨rfl, ⟨F, hF, hps.cong rfl rfl ⟨rfl, rfl, rfl, rfl, rfl, rfl, [], by simp, Quiet.nil⟩, hph', hlg⟩,
           hpk.inp, hpk.em⟩⟩
-    · have hpoll := hh.poll (F := 100000) hN
+    · have hpoll := hh.pollT hN
       obtain ⟨k1, k2, k3, k4⟩ := keep hl
       exact ⟨c', "RET", by rw [runTask_succ, hpoll], hkp, k1, k2, k3, k4, Or.inr ⟨rfl, hfin⟩⟩
 
